@@ -15,6 +15,7 @@ import (
 
 type c19Req struct {
 	id      string
+	stake   keys.Address // the validator's stake account
 	m       c10Cand
 	S       int64
 	yes, no int
@@ -24,7 +25,7 @@ type c19Req struct {
 // SV_C19_tally: one or two allegation requests with recorded votes against
 // validators with an arbitrary stake, tallied at block end.
 //
-// sv:bounds request req1 against validator M with 3 possible voters (distinct addresses, as Vote() maintains), each having voted yes, no or not at all; optionally a second request req2 against another validator N with 2 possible voters, inserted before or after req1 in the tracker; activeCount in 1..4; evidence options of the devnet genesis (vote share 50/100, allegation share 50/100, penalty 30/100, bounty 50/100); M's stake S (whole OLT) symbolic, 0 <= S < 2^40, N's stake 1000, each held by its own stake address; M's stake address also holds a symbolic stake 0 <= X < 2^40 with a third validator that nobody accuses; nobody frozen before
+// sv:bounds request req1 against validator M with 3 possible voters (distinct addresses, as Vote() maintains), each having voted yes, no or not at all; optionally a second request req2 against another validator N with 2 possible voters, inserted before or after req1 in the tracker; activeCount in 1..4; evidence options of the devnet genesis (vote share 50/100, allegation share 50/100, penalty 30/100, bounty 50/100); M's stake S (whole OLT) symbolic, 0 <= S < 2^40, N's stake 1000, N's held by its own address; M's stake account is M's own address or a separate account (then M's own address also holds a symbolic stake with a validator whose address is that account); M's stake address also holds a symbolic stake 0 <= X < 2^40 with a third validator that nobody accuses; nobody frozen before
 // sv:outside more than two concurrent requests; other option values; votes of validators that are no longer active (the code counts every recorded vote: noted, not asserted); histories
 // sv:goal for each request on its own votes, with required = ceil(active*50/100): guilty iff yes/required > 1/2, else innocent iff no/required > 1/2, else undecided; guilty implies the accused is frozen, its stake records (validator total, its own locked amount) drop by exactly round(S*30/100), the bounty address receives exactly that penalty * 10^18 * 50/100, and the same amount is recorded as the delayed unstake applied to the validator record in the next block; innocent/undecided changes neither stake nor bounty nor frozen status; a decided request leaves the tracker; the stake M's stake address holds with the third validator is never touched and never enters the penalty base
 func SV_C19_tally() {
@@ -45,18 +46,36 @@ func SV_C19_tally() {
 	other := sv.Int64("otherStake")
 	sv.Assume(other >= 0 && other < 1<<40)
 	otherV := c10Candidate(9).addr
-	if err := e.vctx.Delegators.Stake(otherV, e.cands[0].addr, *balance.NewAmount(other)); err != nil {
+	// M's stake account: M's own address, or a separate account; in the second case M's
+	// own address holds a stake ("cross") with a validator whose address is that account
+	stakeM := e.cands[0].addr
+	separate := sv.Choice("separateStakeAccount", 2) == 1
+	cross := sv.Int64("crossStake")
+	sv.Assume(cross >= 0 && cross < 1<<40)
+	if separate {
+		stakeM = c10Candidate(8).addr
+		if err := e.vctx.Delegators.Stake(stakeM, e.cands[0].addr, *balance.NewAmount(cross)); err != nil {
+			sv.Unreachable("cross stake record")
+		}
+	}
+	reqs[len(reqs)-1].stake, reqs[0].stake = reqs[len(reqs)-1].m.addr, reqs[0].m.addr
+	for _, r := range reqs {
+		if r.id == "req1" {
+			r.stake = stakeM
+		}
+	}
+	if err := e.vctx.Delegators.Stake(otherV, stakeM, *balance.NewAmount(other)); err != nil {
 		sv.Unreachable("other stake record")
 	}
 	es := e.vctx.EvidenceStore
 	at, _ := es.GetAllegationTracker()
 	for _, r := range reqs {
-		v := NewValidator(r.m.addr, r.m.addr, r.m.pub, r.m.pub, *balance.NewAmount(r.S), r.id)
+		v := NewValidator(r.m.addr, r.stake, r.m.pub, r.m.pub, *balance.NewAmount(r.S), r.id)
 		v.Power = r.S
 		if err := e.vs.Set(*v); err != nil {
 			sv.Unreachable("validator record")
 		}
-		if err := e.vctx.Delegators.Stake(r.m.addr, r.m.addr, *balance.NewAmount(r.S)); err != nil {
+		if err := e.vctx.Delegators.Stake(r.m.addr, r.stake, *balance.NewAmount(r.S)); err != nil {
 			sv.Unreachable("stake record")
 		}
 		ar := evidence.NewAllegationRequest(r.id, c10Candidate(5).addr, r.m.addr, 1, "proof")
@@ -104,7 +123,7 @@ func SV_C19_tally() {
 		innocent := !guilty && int64(r.no)*100 > 50*required // no/required > 1 - 50/100
 		frozen := es.IsFrozenValidator(r.m.addr)
 		T, _ := e.vctx.Delegators.GetValidatorAmount(r.m.addr)
-		E, _ := e.vctx.Delegators.GetValidatorDelegationAmount(r.m.addr, r.m.addr)
+		E, _ := e.vctx.Delegators.GetValidatorDelegationAmount(r.m.addr, r.stake)
 		_, open := at2.Requests[r.id]
 		if guilty {
 			sv.Assert(frozen, "guilty-validator-is-frozen")
@@ -133,10 +152,24 @@ func SV_C19_tally() {
 		sv.Observe("frozen:"+r.id, frozen)
 	}
 	sv.Assert(gain.Cmp(wantGain) == 0, "bounty-receives-exactly-its-share-of-the-penalties")
-	O, _ := e.vctx.Delegators.GetValidatorDelegationAmount(otherV, e.cands[0].addr)
+	O, _ := e.vctx.Delegators.GetValidatorDelegationAmount(otherV, stakeM)
 	OT, _ := e.vctx.Delegators.GetValidatorAmount(otherV)
 	sv.Assert(O.BigInt().Cmp(big.NewInt(other)) == 0 && OT.BigInt().Cmp(big.NewInt(other)) == 0, "stake-lodged-with-another-validator-is-untouched")
+	if separate {
+		X, _ := e.vctx.Delegators.GetValidatorDelegationAmount(stakeM, e.cands[0].addr)
+		XT, _ := e.vctx.Delegators.GetValidatorAmount(stakeM)
+		sv.Assert(X.BigInt().Cmp(big.NewInt(cross)) == 0 && XT.BigInt().Cmp(big.NewInt(cross)) == 0, "stake-the-validator's-own-address-holds-elsewhere-is-untouched")
+		sv.Cover(true, "separate-stake-account")
+	}
 }
+
+// SV_C03_guilty_verdict: the block-end tally debits only the stake account of
+// the validator found guilty (same exploration as SV_C19_tally).
+//
+// sv:bounds as SV_C19_tally
+// sv:outside as SV_C19_tally
+// sv:goal as SV_C19_tally: the penalty leaves the guilty validator's stake account only; the stake that account holds with another validator, and the stake the validator's own address holds with a validator whose address is that account, stay as they are
+func SV_C03_guilty_verdict() { SV_C19_tally() }
 
 // SV_C19_frozen_stays_out: a frozen validator drops out of the validator set
 // and stays out while other validators are released (the election read from
